@@ -8,9 +8,10 @@ CONSTANTS
   Actives = {{1}, {1, 2}}
   StartSlots = {0}
   Lags <- LagsNear
-  MaxReorgs = 1
+  MaxReorgs = 0
   MaxIdx = 1
-  MaxFails = 1
+  MaxFails = 0
+  InitDuties = TRUE
   Weaken = "none"
 INVARIANT TypeOK
 INVARIANT AtMostOnce
